@@ -217,6 +217,13 @@ func crossInputs(fmtName string, salt int64, nWell, nNoise int) []corpusInput {
 			ins = append(ins, lineOfLength(fmtName, salt+20+int64(i), 1<<p-1, true)) // the CR of a CRLF copy is byte 2^p
 		}
 	}
+	if fmtName == "fastq" && nWell >= 4 { // a file of many reads with a record boundary at 2^16 (thorough: 2^20): large buffers refilled mid-record
+		b := 1 << 16
+		if thorough() {
+			b = 1 << 20
+		}
+		ins = append(ins, corpusInput{fmtName, fqAlignedFile(newRand(salt+31), b), true}, corpusInput{fmtName, fqAlignedFile(newRand(salt+32), b-1), true})
+	}
 	if fmtName == "newick" { // line breaks inside quoted names are content, not terminators: keep them out of the CRLF comparison
 		for i := range ins {
 			ins[i].Data = bytes.Map(func(r rune) rune {
